@@ -841,7 +841,7 @@ func c03Gen(r *verifh.Rng) []verifh.Section {
 		secs = append(secs, c03GenTokenZ(r))
 	}
 	// thorough: the recoveries of token sections (`up`, `latefail`: one real 100 ms ping tick each) are 80% of the run time
-	np, nt := verifh.Scale(48, 400), verifh.Scale(50, 330)
+	np, nt := verifh.Scale(48, 400), verifh.Scale(50, 240)
 	for i := 0; i < np; i++ {
 		secs = append(secs, c03GenPeriod(r))
 	}
